@@ -118,7 +118,7 @@ def main():
             na.append({"property_id": pid, "reason": NOT_YET.get(pid, "check designed in DESIGN.md §6 but not built yet in this tree; not claimed until it runs")})
     m = {
         "version": 1,
-        "setup_cmd": "cd /verif && CARGO_NET_OFFLINE=true CARGO_TARGET_DIR=/verif/target cargo build --release --offline",
+        "setup_cmd": "cd /verif && CARGO_NET_OFFLINE=true CARGO_TARGET_DIR=/verif/target cargo build --release --offline && cd /verif/tk && CARGO_NET_OFFLINE=true CARGO_TARGET_DIR=/verif/tk/target cargo build --release --offline",
         "hooks": {
             "guard": "--cfg humphrey_verif (rustc cfg, set in /verif/.cargo/config.toml; off in /repo)",
             "enable": "the /verif workspace builds /repo's crates through shadow manifests (/verif/shadow/*/Cargo.toml, [lib] path=/repo/<crate>/src/lib.rs) with RUSTFLAGS --cfg humphrey_verif and the humsim dependency; /repo's Cargo.toml and Cargo.lock are untouched",
